@@ -371,19 +371,30 @@ func expiryProp(t *rapid.T) {
 		if !ok {
 			t.Fatalf("harness: no pipe")
 		}
+		// A context takes its survey time either from its own option or,
+		// when it sets none, from the socket it was opened on (OpenContext
+		// copies the socket's current settings).
+		inherit := useCtx && rapid.Bool().Draw(t, "inheritsSurveyTime")
+		if scenario == "zero-means-infinite" {
+			S = 0
+		}
 		var c mangos.Context = sock
+		if inherit {
+			if err := sock.SetOption(mangos.OptionSurveyTime, S); err != nil {
+				t.Fatalf("harness: %v", err)
+			}
+		}
 		if useCtx {
 			if c, err = sock.OpenContext(); err != nil {
 				t.Fatalf("harness: %v", err)
 			}
 		}
-		if scenario == "zero-means-infinite" {
-			S = 0
-		}
-		if err := c.SetOption(mangos.OptionSurveyTime, S); err != nil {
+		if inherit {
+			stats.Class("ctx_inherits_survey_time")
+		} else if err := c.SetOption(mangos.OptionSurveyTime, S); err != nil {
 			t.Fatalf("harness: %v", err)
 		}
-		doc := map[string]interface{}{"test": "TestC07Expiry", "S_ms": S.Milliseconds(), "scenario": scenario, "ctx": useCtx, "restart": restart, "rseed": os.Getenv("VERIF_RSEED")}
+		doc := map[string]interface{}{"test": "TestC07Expiry", "S_ms": S.Milliseconds(), "scenario": scenario, "ctx": useCtx, "inherit": inherit, "restart": restart, "rseed": os.Getenv("VERIF_RSEED")}
 		fail := func(key, f string, a ...interface{}) {
 			stats.Fail(t, "C07:expiry:"+key, doc, "S=%v %s: %s", S, scenario, fmt.Sprintf(f, a...))
 		}
